@@ -35,7 +35,7 @@ CHECKS = {
  "C10": dict(cat="exploration", tech="bounded-exhaustive enumeration of small tagged reference graphs (all number subsets, all role assignments, all page-id permutations, shared/cyclic/dangling references, bookmarks) x start values; the renaming bijection is recovered from immutable tags",
    text="For every enumerated document x bookmark list x start value the real renumber_objects / renumber_objects_with is run; new numbers must be exactly start..start+n-1 with generations kept and max_id the last, trailer and every reachable object must equal the original under the recovered one-to-one renaming, bookmark targets and page order must follow it, and dangling references must keep resolving to nothing.",
    note="a dangling reference may also come back as null (equivalent per ISO 32000 7.3.10); graphs have <=4/5 objects plus full page-tree families"),
- "C11": dict(cat="model_checking", tech="explicit-state breadth-first search over sequences of ~40 editing-operation instances from 4 start documents on the real Document next to an abstract model, states deduplicated by canonical digest, 8 invariants evaluated after every transition",
+ "C11": dict(cat="model_checking", tech="explicit-state breadth-first search over sequences of ~40 editing-operation instances from 5 start documents (one with sparse numbering and dangling references) on the real Document next to an abstract model, states deduplicated by canonical digest, 8 invariants evaluated after every transition",
    text="Every operation sequence up to depth 3 (quick) / 4 (thorough) over the alphabet {allocate id, add, set, delete object, remove annotation, prune, delete pages, renumber, compress/decompress, add/change/append page content, add xobject / graphics state, bookmarks + build_outline, delete zero-length streams, save+reload in both formats} is executed on the real code; fresh ids, preservation of reachable objects outside the documented footprint, no dangling reference after deletion, exact pruning, page-tree Counts, page content vs the model, effective (own or inherited) resources and save validity (strict reader + reload) are checked in every state.",
    note="trusts the harness's own reachability, page-tree walk and isomorphism routines; delete_object is applied only to non-structural objects, set_object only outside the page tree's closure (domain of the statement)"),
  "C12": dict(cat="exploration", tech="bounded-exhaustive enumeration of all ordered page trees with <=7/8 nodes x leaf typings x direct/indirect Kids x id orders, depth chains at the documented limit, and every single malformed mutation of every tree with <=5/6 nodes; Count-extreme cases in rlimited child processes",
